@@ -40,6 +40,9 @@ type Frame struct {
 	// to the current stack top.
 	// Stacktop *Object
 	Yielded bool // set if the function yielded, cleared otherwise
+	// The exception being handled when a generator frame yielded from
+	// inside an except handler - put back when the frame is resumed
+	Exc ExceptionInfo
 	// Trace   Object // Trace function
 
 	// In a generator, we need to be able to swap between the exception
